@@ -59,6 +59,7 @@ def scalar(rng, ctx_flow, indent):
     if r < 0.8: return '"' + rng.choice(['', 'a', 'a\\nb', '\\x41', '\\u263A', '\\U0001F600', 'a\\\n  b', 'tab\\t', '\\0', '\\e', ' x ', 'a\n' + ' ' * (indent + 1) + 'b', '\\_', '\\N', '\\L', '\\P', '\\"', '\\\\', '\\/', 'é']) + '"'
     if ctx_flow: return rng.choice(PLAIN[:20])
     hdr = rng.choice(['|', '>', '|-', '|+', '>-', '>+', '|2', '>1-', '|+1'])
+    if rng.random() < 0.12: return hdr + rng.choice(['\n', '\n\n', '\n\n\n', ' # c\n'])          # a block scalar without content (empty or blank lines only)
     ind = ' ' * (indent + (int(hdr[1]) if len(hdr) > 1 and hdr[1].isdigit() else int(hdr[2]) if len(hdr) > 2 and hdr[2].isdigit() else rng.choice([1, 2, 4])))
     lines = [rng.choice(['text', 'more text', '  indented', '', 'x # not comment', 'a: b', '- c']) for _ in range(rng.choice([1, 2, 3, 4]))]
     return hdr + rng.choice(['', ' # c']) + '\n' + '\n'.join((ind + l) if l else '' for l in lines) + rng.choice(['', '\n', '\n\n'])
@@ -78,14 +79,15 @@ def node(rng, depth, indent, flow, anchors):
     if flow or r < 0.55:
         n = rng.choice([0, 1, 2, 3])
         if rng.random() < 0.5:
-            return props + '[' + ', '.join(node(rng, depth - 1, indent, True, anchors) for _ in range(n)) + rng.choice(['', ',']) * (n > 0) + ']'
+            return props + '[' + ', '.join((': ' if rng.random() < 0.06 else '') + node(rng, depth - 1, indent, True, anchors) for _ in range(n)) + rng.choice(['', ',']) * (n > 0) + ']'
         items = []
         for _ in range(n):
             k = node(rng, 0, indent, True, anchors)
             rr = rng.random()
             if rr < 0.7: items.append(k + ': ' + node(rng, depth - 1, indent, True, anchors))
             elif rr < 0.8: items.append('? ' + k + ' : ' + node(rng, depth - 1, indent, True, anchors))
-            elif rr < 0.9: items.append(k)
+            elif rr < 0.86: items.append(k)
+            elif rr < 0.93: items.append(': ' + node(rng, depth - 1, indent, True, anchors))       # an entry with an empty key
             else: items.append(k + ':')
         return props + '{' + ', '.join(items) + '}'
     pad = ' ' * indent
